@@ -18,7 +18,7 @@ pub fn prop() -> Prop {
 fn spec() -> Spec {
     Spec {
         kinds: vec![Kind { name: "offsets", quick: 8_000, thorough: 400_000, serial: false }],
-        rule: "each case = synthetic cell (coarse box meshes; with/without base and tool; 0..3 obstacles placed next to links of the initial or of an offset posture; touch-only or distance safety tables incl. exemptions; modes first/all) x collision-free initial vector x from/to vectors (each joint moved by 0.05..3 rad either way, some beyond the limits) x rayon pool size in {1,2,4,16}; the result of non_colliding_offsets must equal, in order, the up-to-twelve single-joint replacements that satisfy the limits and for which the same robot's full collides() is false. non-trivial = some candidates kept and some rejected for collision; distinct = hash(cell, initial, from, to) Workload additions: a third of the cells with a forbidden arc opposite to the current value written as a wrap-around range and replacement values on another turn; designed base meshes next to links of J1..J3 offset postures (half of them without environment); off-origin obstacle meshes.",
+        rule: "each case = synthetic cell (coarse box meshes; with/without base and tool; 0..3 obstacles placed next to links of the initial or of an offset posture; touch-only or distance safety tables incl. exemptions; modes first/all) x collision-free initial vector x from/to vectors (each joint moved by 0.05..3 rad either way, some beyond the limits) x rayon pool size in {1,2,4,16}; the result of non_colliding_offsets must equal, in order, the up-to-twelve single-joint replacements that satisfy the limits and for which the same robot's full collides() is false. non-trivial = some candidates kept and some rejected for collision; distinct = hash(cell, initial, from, to) Workload additions: a third of the cells with a forbidden arc opposite to the current value written as a wrap-around range and replacement values on another turn; designed base meshes next to links of J1..J3 offset postures (half of them without environment); off-origin obstacle meshes. Rounds 7-9: unconstrained joints (from == to) among the limits; both replacement values on one side of the current value.",
         assumptions: vec![
             "precondition of the API: the initial vector is collision free (checked with the same robot's collides(); other cases are skipped as inconclusive)",
             "'reported free' is the same robot's full collides() (its agreement with geometry is C10's subject)",
